@@ -1045,3 +1045,52 @@ def extra_coverage(results):
         if z:
             zones[z] = zones.get(z, 0) + 1
     return {'outside_documented_domain': outside, 'cases_per_kind': kinds, 'unix_cases_run_in_a_child_process_per_time_zone': zones}
+
+
+# ------------------------------------------------------------------ twins for the amplified run (core.amplified_run, props/_twins.py)
+
+def _has_gen(e):
+    if isinstance(e, list):
+        return (len(e) > 0 and e[0] == 'gen') or any(_has_gen(x) for x in e)
+    return False
+
+
+def twins(case):
+    """twin cases: the value with every number moved to another numeric type (1 / True / 1.0, 0 / False / 0.0 / -0.0) and - for list /
+    tuple values - the value with every element FOLLOWED by its twins (`[1, 2]` -> `[1, True, 1.0, 2, 2.0]`: a memo keyed by the element,
+    even one that lives for a single call, meets equal keys with different meaning inside one value).  Rebuilt through the case
+    constructors, so the oracle answers belong to the twin value."""
+    import _twins
+    c, x = case['c'], case.get('x') or {}
+    k, v = c['k'], c['v']
+    if x.get('tz') or _has_gen(v) or k not in ('min', 'max', 'minlen', 'maxlen', 'notempty', 'tree', 'convert', 'enum', 'unix'):
+        return []
+    try:
+        val = dec(v)
+    except Exception:
+        return []
+    cands = []
+    if type(val) in (list, tuple):
+        cands.append(type(val)(_twins.interleave_with_twins(list(val), _twins.scalar_twins)))
+    for to in ('rotate', 'bool', 'negzero'):
+        cands.append(_twins.twin_object(val, to))
+    out, seen = [], {json.dumps(v)}
+    for tv in cands:
+        try:
+            v2 = enc(tv)
+            key = json.dumps(v2)
+            if key in seen:
+                continue
+            seen.add(key)
+            if k in ('min', 'max'): t = c_minmax(k, c['bound'], c['incl'], v2)
+            elif k in ('minlen', 'maxlen'): t = c_len(k, c['n'], v2)
+            elif k == 'notempty': t = c_notempty(c['strip'], v2)
+            elif k == 'tree': t = c_tree(c['t'], c['leaves'], v2, x.get('single', False))
+            elif k == 'convert': t = c_convert(v2, c['t'])
+            elif k == 'enum': t = c_enum(x['cls'], c['convert'], c['upper'], v2)
+            else: t = c_unix(v2)
+        except Exception:
+            continue
+        if t is not None:
+            out.append(t)
+    return out
